@@ -360,3 +360,193 @@ Theorem C02_generate_same_insertion_independent :
     generate src outs W = Ok (out, log) -> generate src' outs W = Ok (out, log).
 Proof. exact generate_same_insertion_independent. Qed.
 Print Assumptions C02_generate_same_insertion_independent.
+
+(** ---- non-vacuity of the hypotheses (audit) ---- *)
+Local Open Scope string_scope.
+
+(** the two insertion orders [exA], [exB] of the diamond: permuted names and permuted edges *)
+Example C02_order_insertion_independent_nonvacuous :
+  Permutation (map fst (c_nodes exA)) (map fst (c_nodes exB))
+  /\ Permutation (c_edges exA) (c_edges exB)
+  /\ map fst (c_nodes exA) <> map fst (c_nodes exB) /\ c_edges exA <> c_edges exB
+  /\ sort_order exA = sort_order exB.
+Proof.
+  assert (H1 : Permutation (map fst (c_nodes exA)) (map fst (c_nodes exB)))
+    by (unfold exA, exB; cbn [c_nodes map fst]; perm_lists).
+  assert (H2 : Permutation (c_edges exA) (c_edges exB)) by (unfold exA, exB; cbn [c_edges]; perm_lists).
+  split; [exact H1|]. split; [exact H2|]. split; [vm_compute; discriminate|]. split; [vm_compute; discriminate|].
+  exact (C02_order_insertion_independent _ _ H1 H2).
+Qed.
+
+Example C02_sorted_names_canonical_nonvacuous :
+  Permutation ["sim"; "d"; "mu"; "s1"] ["s1"; "mu"; "sim"; "d"]
+  /\ sort_names ["sim"; "d"; "mu"; "s1"] = ["d"; "mu"; "s1"; "sim"].
+Proof. split; [perm_lists | vm_compute; reflexivity]. Qed.
+
+(** the cache left by one execution of [exA] (sort order and one execution order stored) is
+    consistent for the next execution of [exA] *)
+Example C02_cache_transparent_nonvacuous :
+  match execute exA empty_cache with
+  | Ok (_, _, c) =>
+      CacheConsistent exA c /\ ec_sort c <> None /\ ec_orders c <> []
+      /\ strip (execute exA c) = strip (execute exA empty_cache)
+  | Err _ => False
+  end.
+Proof.
+  destruct (execute exA empty_cache) as [[[out log] c]|e] eqn:E; [|vm_compute in E; discriminate].
+  assert (Hc : CacheConsistent exA c).
+  { vm_compute in E. inversion E; subst. split.
+    - intros so H. vm_compute in H. inversion H; subst. vm_compute. reflexivity.
+    - intros o H. vm_compute in H. inversion H; subst. vm_compute. reflexivity. }
+  split; [exact Hc|]. split; [vm_compute in E; inversion E; subst; vm_compute; discriminate|].
+  split; [vm_compute in E; inversion E; subst; vm_compute; discriminate|].
+  rewrite <- E. exact (C02_cache_transparent _ _ Hc).
+Qed.
+
+(** a history of three loaded nets of one compiled net: [exA], [exA] with [b] supplied, [exA] *)
+Definition exA_b : cnet :=
+  {| c_nodes := [("a", cn (Some (VConst 1)) None); ("b", cn (Some (VConst 2)) None);
+                 ("c", cn None (Some (OpUser "c"))); ("d", cn None (Some (OpUser "d")))];
+     c_edges := c_edges exA; c_outputs := ["d"]; c_observed := [] |}.
+Example C02_history_independent_nonvacuous :
+  (forall g g', In g [exA; exA_b; exA] -> In g' [exA; exA_b; exA] -> coherent g g')
+  /\ key_of exA <> key_of exA_b
+  /\ execute exA empty_cache <> execute exA_b empty_cache
+  /\ exec_history [exA; exA_b; exA] empty_cache = map (fun g => strip (execute g empty_cache)) [exA; exA_b; exA].
+Proof.
+  assert (H : forall g g', In g [exA; exA_b; exA] -> In g' [exA; exA_b; exA] -> coherent g g').
+  { intros g g' Hg Hg'. simpl in Hg, Hg'.
+    destruct Hg as [<-|[<-|[<-|[]]]]; destruct Hg' as [<-|[<-|[<-|[]]]];
+      (split; [reflexivity|]; split; [reflexivity|]; intros Hk n;
+       first [reflexivity | vm_compute in Hk; discriminate Hk]). }
+  split; [exact H|]. split; [vm_compute; discriminate|]. split; [vm_compute; discriminate|].
+  exact (C02_history_independent _ H).
+Qed.
+
+(** the call log of [exA] is [b; c; d]; when [d] runs (position 2) its parent [b] has run *)
+Example C02_log_nonvacuous :
+  exists g', run_order exA ["a"; "b"; "c"; "d"] [] = Ok (g', ["b"; "c"; "d"])
+    /\ nth_error ["b"; "c"; "d"] 2 = Some "d" /\ In ("b", PInt 0) (preds (c_edges exA) "d")
+    /\ has_out exA "b" = false /\ In "b" (firstn 2 ["b"; "c"; "d"])
+    /\ C03_Exec.Inv exA exA /\ NoDup ["a"; "b"; "c"; "d"]
+    /\ ["b"; "c"; "d"] = ([] ++ filter (has_op exA) ["a"; "b"; "c"; "d"])%list.
+Proof.
+  assert (Hr : exists g', run_order exA ["a"; "b"; "c"; "d"] [] = Ok (g', ["b"; "c"; "d"]))
+    by (eexists; vm_compute; reflexivity).
+  destruct Hr as [g' Hr]. exists g'. split; [exact Hr|].
+  assert (Hn : nth_error ["b"; "c"; "d"] 2 = Some "d") by reflexivity.
+  assert (Hp : In ("b", PInt 0) (preds (c_edges exA) "d")) by (vm_compute; tauto).
+  assert (Hnd : NoDup ["a"; "b"; "c"; "d"]) by (repeat constructor; simpl; intuition discriminate).
+  split; [exact Hn|]. split; [exact Hp|]. split; [vm_compute; reflexivity|].
+  split.
+  { destruct (C02_log_respects_dependencies _ _ _ _ Hr 2 "d" Hn "b" (PInt 0) Hp) as [H|H]; [|exact H].
+    vm_compute in H. discriminate H. }
+  split; [apply Inv_refl|]. split; [exact Hnd|].
+  exact (C02_log_is_filtered_order exA _ exA [] g' _ (Inv_refl exA) Hnd Hr).
+Qed.
+
+(** [insA] / [insB] with a supplied value for the prior: every hypothesis of the end-to-end theorems,
+    including those of [C02_loaded_sort_order] (obtained from the successful generate calls) *)
+Example C02_generate_with_values_nonvacuous :
+  let W := [("mu", VConst 3)] in
+  wfsrc insA /\ same_model insA insB /\ NoDup (map fst W) /\ (forall k, In k (map fst W) -> ~ In k inames)
+  /\ outputs_wf insA ["d"] /\ params_distinct insA
+  /\ (exists out log, generate insA ["d"] W = Ok (out, log) /\ generate insB ["d"] W = Ok (out, log)
+                      /\ log = ["_s2_observed"; "_s1_observed"; "_d_observed"; "sim"; "s1"; "s2"; "d"])
+  /\ den_name insA W "d" = den_name insB W "d" /\ den_name insA W "d" <> None.
+Proof.
+  intros W.
+  assert (Hwf : wfsrc insA) by (apply wfsrc_b_sound; vm_compute; reflexivity).
+  assert (H1 : NoDup (map fst W)) by (repeat constructor; simpl; tauto).
+  assert (H2 : forall k, In k (map fst W) -> ~ In k inames).
+  { intros k [Hk|[]]; subst k. vm_compute. intuition discriminate. }
+  assert (H3 : outputs_wf insA ["d"]) by (apply (outputs_wf_b_sound _ _ (wf_nodup _ Hwf)); vm_compute; reflexivity).
+  assert (H4 : params_distinct insA) by (apply params_distinct_b_sound; vm_compute; reflexivity).
+  split; [exact Hwf|]. split; [exact insAB_same_model|]. split; [exact H1|]. split; [exact H2|].
+  split; [exact H3|]. split; [exact H4|]. split.
+  - eexists. eexists. split; [vm_compute; reflexivity|].
+    split; [|reflexivity].
+    eapply C02_generate_same_insertion_independent; try eassumption; [exact insAB_same_model | vm_compute; reflexivity].
+  - split; [exact (C02_meaning_insertion_independent _ _ W "d" Hwf insAB_same_model H4)|].
+    vm_compute. discriminate.
+Qed.
+
+Example C02_loaded_sort_order_nonvacuous :
+  let W := [("mu", VConst 3)] in
+  exists cn cn' g1 g1',
+    wfsrc insA /\ same_model insA insB /\ outputs_wf insA ["d"]
+    /\ compile_outputs (s_nodes insA) = Ok cn /\ compile_outputs (s_nodes insB) = Ok cn'
+    /\ CO insA cn (topo_order insA) g1 /\ CO insB cn' (topo_order insB) g1'
+    /\ c_outputs g1 = ["d"] /\ c_outputs g1' = ["d"]
+    /\ nd (compile_reduce (G4of insA g1)) /\ nd (compile_reduce (G4of insB g1'))
+    /\ sort_order (load (wp W) (compile_reduce (G4of insA g1))) = sort_order (load (wp W) (compile_reduce (G4of insB g1'))).
+Proof.
+  intros W.
+  assert (Hwf : wfsrc insA) by (apply wfsrc_b_sound; vm_compute; reflexivity).
+  assert (Hwf' : wfsrc insB) by (apply wfsrc_b_sound; vm_compute; reflexivity).
+  assert (H3 : outputs_wf insA ["d"]) by (apply (outputs_wf_b_sound _ _ (wf_nodup _ Hwf)); vm_compute; reflexivity).
+  destruct (generate insA ["d"] W) as [[out log]|e] eqn:Eg; [|vm_compute in Eg; discriminate].
+  destruct (generate insB ["d"] W) as [[out' log']|e] eqn:Eg'; [|vm_compute in Eg'; discriminate].
+  destruct (generate_inv _ _ _ _ _ Hwf Eg) as [cn [g1 [c1 [Hcn [Hco [Hout [Hnd _]]]]]]].
+  destruct (generate_inv _ _ _ _ _ Hwf' Eg') as [cn' [g1' [c1' [Hcn' [Hco' [Hout' [Hnd' _]]]]]]].
+  exists cn, cn', g1, g1'. repeat (split; [assumption || exact insAB_same_model|]).
+  exact (C02_loaded_sort_order insA insB W ["d"] cn cn' g1 g1' Hwf insAB_same_model H3 Hcn Hcn' Hco Hco' Hout Hout' Hnd Hnd').
+Qed.
+
+(** [C02_model_ok] / [C02_ok_sound]: the model's results on the two builds are not errors, the
+    three-call history is well-formed, and the resulting case passes [Determinism.ok] *)
+Example C02_model_ok_nonvacuous :
+  Determinism.model_result insA ["d"] <> ImplErr /\ Determinism.model_result insB ["d"] <> ImplErr
+  /\ Forall hcall_wf hist_calls
+  /\ let c := {| Determinism.d_src1 := insA; Determinism.d_src2 := insB; Determinism.d_outputs := ["d"];
+                 Determinism.d_impl1 := Determinism.model_result insA ["d"];
+                 Determinism.d_impl2 := Determinism.model_result insB ["d"];
+                 Determinism.d_hist := map model_step hist_calls |} in
+     Determinism.ok c = true
+     /\ Determinism.d_impl1 c = Determinism.d_impl2 c
+     /\ (forall s, In s (Determinism.d_hist c) -> Determinism.h_impl s = Determinism.h_impl_fresh s)
+     /\ List.length (Determinism.d_hist c) = 3%nat.
+Proof.
+  assert (Hwf : wfsrc insA) by (apply wfsrc_b_sound; vm_compute; reflexivity).
+  assert (H3 : outputs_wf insA ["d"]) by (apply (outputs_wf_b_sound _ _ (wf_nodup _ Hwf)); vm_compute; reflexivity).
+  assert (H4 : params_distinct insA) by (apply params_distinct_b_sound; vm_compute; reflexivity).
+  assert (E1 : Determinism.model_result insA ["d"] <> ImplErr) by (vm_compute; discriminate).
+  assert (E2 : Determinism.model_result insB ["d"] <> ImplErr) by (vm_compute; discriminate).
+  destruct C02_history_example as [Hh _].
+  split; [exact E1|]. split; [exact E2|]. split; [exact Hh|].
+  intros c.
+  assert (Hok : Determinism.ok c = true) by (exact (C02_model_ok insA insB ["d"] hist_calls Hwf insAB_same_model H3 H4 E1 E2 Hh)).
+  split; [exact Hok|]. destruct (C02_ok_sound c Hok) as [Ha Hb].
+  split; [exact Ha|]. split; [exact Hb | reflexivity].
+Qed.
+
+(** success: the topological check and the compilation succeed on [insA] (hence on [insB]) *)
+Example C02_success_nonvacuous :
+  topo_ok insA = true /\ topo_ok insB = true
+  /\ (exists g, compile insA ["d"] = Ok g) /\ (exists g', compile insB ["d"] = Ok g').
+Proof.
+  assert (Hwf : wfsrc insA) by (apply wfsrc_b_sound; vm_compute; reflexivity).
+  assert (Ht : topo_ok insA = true) by (vm_compute; reflexivity).
+  split; [exact Ht|]. split; [exact (C02_topo_check_insertion_independent _ _ Hwf insAB_same_model Ht)|].
+  destruct (compile insA ["d"]) as [g|e] eqn:E; [|vm_compute in E; discriminate].
+  split; [now exists g|]. exact (C02_compile_success_insertion_independent _ _ _ _ Hwf insAB_same_model E).
+Qed.
+
+(** [exA] and [exB] have the same shape, permuted edges, the same outputs and the same sort order *)
+Example C02_execute_success_shape_nonvacuous :
+  sheq exA exB /\ Permutation (c_edges exA) (c_edges exB) /\ c_outputs exA = c_outputs exB
+  /\ sort_order exA = sort_order exB
+  /\ (exists r, execute exA empty_cache = Ok r) /\ (exists r', execute exB empty_cache = Ok r').
+Proof.
+  assert (Hs : sheq exA exB).
+  { intros n. unfold exA, exB. cbn [c_nodes lookup].
+    destruct (String.eqb_spec n "a"); [subst; reflexivity|].
+    destruct (String.eqb_spec n "b"); [subst; reflexivity|].
+    destruct (String.eqb_spec n "c"); [subst; reflexivity|].
+    destruct (String.eqb_spec n "d"); [subst; reflexivity|]. reflexivity. }
+  assert (H2 : Permutation (c_edges exA) (c_edges exB)) by (unfold exA, exB; cbn [c_edges]; perm_lists).
+  assert (H4 : sort_order exA = sort_order exB) by (vm_compute; reflexivity).
+  split; [exact Hs|]. split; [exact H2|]. split; [reflexivity|]. split; [exact H4|].
+  destruct (execute exA empty_cache) as [r|e] eqn:E; [|vm_compute in E; discriminate].
+  split; [now exists r|]. exact (C02_execute_success_shape _ _ _ Hs H2 eq_refl H4 E).
+Qed.
